@@ -27,14 +27,14 @@ type Decl struct {
 }
 
 type Case struct {
-	NFiles  int
-	Decls   []Decl   // in the order they are written within their file/mode
-	Modes   []string // named modes, each lives in one file, at a position among that file's default-mode declarations
-	ModeAt  map[string]int
-	Parser  []string // tokens referenced by the parser (alternatives of the start rule)
-	PFile   int
-	Files   map[string]string `json:",omitempty"`
-	Detail  string            `json:",omitempty"`
+	NFiles int
+	Decls  []Decl   // in the order they are written within their file/mode
+	Modes  []string // named modes, each lives in one file, at a position among that file's default-mode declarations
+	ModeAt map[string]int
+	Parser []string // tokens referenced by the parser (alternatives of the start rule)
+	PFile  int
+	Files  map[string]string `json:",omitempty"`
+	Detail string            `json:",omitempty"`
 }
 
 func ri(t *rapid.T, lo, hi int, l string) int { return rapid.IntRange(lo, hi).Draw(t, l) }
